@@ -32,6 +32,10 @@ if metas:
         det = d.get("detected_by", {})
         caught = [k for k, v in det.items() if v["exit"] == 1]
         missed = [k for k, v in det.items() if v["exit"] == 0]
+        if d.get("applies_to_final_tree") is False:
+            # displaced by a later fix: commit: the results below are those recorded when the seed was filed
+            caught = [c + " (when filed)" for c in caught]
+            short += f" [patch no longer applies after {d.get('displaced_by_fix_commit')}; applies to {d.get('last_finam_commit_it_applies_to')}]"
         lines.append(f"| {name} | {d['property']} | {short} | {', '.join(caught) or '—'} | {', '.join(missed) or '—'} |")
     lines.append("")
 p = os.path.join(HERE, "DESIGN.md")
